@@ -9,7 +9,7 @@
   (GV/Generated/Balance.lean).
 -/
 import GV.Generated.Balance
-import GV.Race.Order
+import GV.Race.OrderSound
 namespace GV.Props.Locks
 open GV.Race.Balance GV.Generated.Balance
 
@@ -55,6 +55,16 @@ theorem acquisition_order :
     GV.Race.Order.edges names sums units =
       [("gp.updateLock", "builder.buildLock"), ("gp.updateLock", "dc.lockBase"),
        ("gp.getEngineLock", "gp.runningLock"), ("gp.getEngineLock", "gp.additionLock")] := by decide
+
+/-- The analysis is sound within a function: every acquisition made, while something is held, by any
+    execution of any regenerated skeleton (any branch, any number of iterations, panics included) is
+    one of the edges above.  (What a callee takes is attributed through the call-graph summaries,
+    resolved by method name and receiver: that part is an over-approximating heuristic.) -/
+theorem acquisitions_are_in_the_order (name : String) (body : LS) (hm : (name, body) ∈ units)
+    {e : Exit} {st' : St} {evs : List (String × String)} (hr : GV.Race.Order.RunE body ⟨[], []⟩ e st' evs) :
+    ∀ ev ∈ evs, ev ∈ GV.Race.Order.edges names sums units :=
+  GV.Race.Order.acquisitions_in_edges names sums units name body hm
+    (List.all_eq_true.1 locks_balanced _ hm) hr
 
 /-- every such acquisition goes up in the ranking updateLock, getEngineLock < buildLock, runningLock,
     additionLock < lockBase < lockVars < the engine's result lock < a fan-out's error lock -/
